@@ -78,6 +78,17 @@ def patterns(depth, reduced=False):
     return p0 + containers(inner, set_items=p0)
 
 
+def _full(fn, depth):
+    """unreduced grammar: inner values are the complete depth-1 sets"""
+    if fn is values:
+        v0 = [("s", x) for x in SCALARS]
+        inner = values(1)
+        return v0 + containers(inner, with_sets=False)
+    p0 = [("s", x) for x in SCALARS] + [("rx", r) for r in REGEXES]
+    inner = patterns(1)
+    return p0 + containers(inner, with_sets=False)
+
+
 def to_py(t, as_pattern):
     k = t[0]
     if k == "s":
@@ -383,11 +394,38 @@ def run(rep, tier):
     rep.set("function_level_pairs", tot["pairs"])
     rep.set("function_level_pairs_expected_to_match", tot["ref_matches"])
     rep.set("function_level_same_container_pairs", tot["container_pairs"])
+    # ---- part A2 (thorough): full (unreduced) depth-2 grammar, pairs of the same top-level kind
+    if tier == "thorough":
+        import time as _t
+        full_p = [p for p in _full(patterns, 2) if p[0] in ("list", "dict")]
+        full_v = [v for v in _full(values, 2) if v[0] in ("list", "dict")]
+        deadline = _t.time() + 900
+        t2 = {"pairs": 0, "ref_matches": 0, "container_pairs": 0}
+        tasks2 = []
+        for kind in ("list", "dict"):
+            pk = [p for p in full_p if p[0] == kind]
+            vk = [v for v in full_v if v[0] == kind]
+            ch = max(1, len(pk) // (par.NPROC * 16))
+            tasks2 += [(pk[i:i + ch], vk) for i in range(0, len(pk), ch)]
+        done2 = 0
+        for r in par.pmap(part_a_chunk, tasks2, deadline=deadline):
+            done2 += 1
+            for k in t2:
+                t2[k] += r[k]
+            for sig, what, rp in r["violations"]:
+                rep.violation(sig, what, rp)
+        rep.set("function_level_full_depth2_pairs", t2["pairs"])
+        rep.set("function_level_full_depth2_expected_to_match", t2["ref_matches"])
+        rep.set("function_level_full_depth2_chunks", f"{done2}/{len(tasks2)}")
+        if done2 < len(tasks2):
+            rep.set("cap_hit", f"full depth-2 cross product stopped by the 900 s budget after {done2}/{len(tasks2)} chunks; the reduced depth-2 product and everything else are complete")
+        tot["pairs"] += t2["pairs"]
+        tot["ref_matches"] += t2["ref_matches"]
     # ---- part B
-    pats_b = patterns(1)
+    pats_b = patterns(1) if tier == "quick" else patterns(2)
     vals_b = values(1)
     steps = markers = progs = der = 0
-    for r in par.pmap(part_b_task, [(p, vals_b) for p in pats_b], chunksize=4):
+    for r in par.pmap(part_b_task, [(p, vals_b if size(p) <= 3 else []) for p in pats_b], chunksize=4):
         steps += r["steps"]; markers += r["markers"]; progs += r["programs"]; der += r["derived"]
         for sig, what, rp in r["violations"]:
             rep.violation(sig, what, rp)
